@@ -17,7 +17,8 @@ static std::vector<std::string> PRETOK_VALID, PRETOK_BAD, PRETOK_EXPIRED;   // p
 
 enum { OP_GEN, OP_VERIFY_VALID, OP_VERIFY_BAD, OP_VERIFY_EXPIRED };
 struct Op { int kind, key, n; };
-struct Script { std::vector<Op> ops; uint64_t skew_ns; int spin; };
+struct Script { std::vector<Op> ops; uint64_t skew_ns; int spin; bool cb = false; };   // cb: this thread's builder and checker have a callback installed (it reads the token and takes a little while)
+static int c18_cb(jwt_t *jwt, jwt_config_t *cfg) { jwt_value_t v = val_get(JWT_VALUE_INT, "n"); (void)jwt_claim_get(jwt, &v); for (volatile int i = 0; i < (cfg->ctx ? *(int *)cfg->ctx : 0); i++) {} return 0; }
 
 static std::atomic<int> g_in_call[32];
 static std::atomic<long> g_overlaps{0}, g_calls{0};
@@ -31,7 +32,8 @@ static std::string norm(const KeySpec &k, jwt_alg_t alg, const char *tok) {
 
 static std::vector<std::string> run_script(const Script &s, bool concurrent) {
   std::vector<std::string> tr;
-  jwt_builder_t *b = jwt_builder_new(); jwt_checker_t *c = jwt_checker_new();
+  jwt_builder_t *b = jwt_builder_new(); jwt_checker_t *c = jwt_checker_new(); int cbspin = 3000;
+  if (s.cb) { jwt_builder_setcb(b, c18_cb, &cbspin); jwt_checker_setcb(c, c18_cb, &cbspin); }
   if (concurrent) { auto t0 = std::chrono::steady_clock::now(); while ((uint64_t)std::chrono::duration_cast<std::chrono::nanoseconds>(std::chrono::steady_clock::now() - t0).count() < s.skew_ns) {} }
   for (const Op &o : s.ops) {
     const KeyUse &k = KU[o.key];
@@ -141,6 +143,7 @@ int main(int argc, char **argv) {
       for (size_t t = 0; t < scripts.size(); t++) { auto &s = scripts[t]; s.skew_ns = rng.below(20000); s.spin = 0; for (int i = 0; i < n; i++) { Op o; o.kind = (i & 1) ? OP_VERIFY_VALID : OP_GEN; o.key = hotkey; o.n = (int)(t * 100000 + i); s.ops.push_back(o); } }
       st.cls("hot-rounds"); }
     else for (auto &s : scripts) { s.skew_ns = rng.below(200000); s.spin = (int)rng.below(2000); for (int i = 0; i < opsper; i++) { Op o; o.kind = (int)rng.below(4); o.key = (int)rng.below(KU.size()); if (rng.chance(1, 3)) o.key = (int)(round % KU.size()); o.n = (int)rng.below(1000); s.ops.push_back(o); } }
+    { int ncb = 0; for (size_t t = 0; t < scripts.size(); t++) { scripts[t].cb = (round % 3 == 2) || ((t + round) & 1); ncb += scripts[t].cb; } if (ncb >= 2) st.cls("rounds-with-callbacks-on-two-or-more-threads"); }
     std::vector<std::vector<std::string>> expect(nt), got(nt);
     // round 0 is COLD: the very first signing/verifying calls of the process are the concurrent ones (lazily initialised
     // state - a one-time table, a cached handle - is only ever raced in that window); its sequential reference run comes afterwards
